@@ -83,23 +83,89 @@ def classify(q):
     return None
 
 
+def written_name(kind, target):
+    """the state a write record touches, independent of local names and of where in the code the write stands:
+    ('attr', attribute name) | ('param', parameter name) | ('dynamic', '*')"""
+    import re
+    if kind in ('setattr', 'delattr'):
+        return ('dynamic', '*')
+    if kind == 'inplace-param':
+        return ('param', target)
+    t = target
+    m = re.search(r'\(= (?:element of )?([^)]*)\)', t)
+    if m:                                  # alias records carry the aliased expression
+        t = m.group(1)
+    t = re.sub(r'\(\)$', '', t.strip())
+    if kind.startswith('call'):
+        parts = re.sub(r'\[\.\.\]', '', t).split('.')
+        if not m:
+            parts = parts[:-1]             # drop the mutating method
+        return ('attr', parts[-1])
+    t = re.sub(r'(\[\.\.\])+$', '', t)
+    return ('attr', re.sub(r'\[\.\.\]', '', t).split('.')[-1])
+
+
+def phases_of(q, cg, callers, seen=None):
+    """classification of a function by the rules above; a function the rules do not name (a helper introduced by a
+    refactoring) inherits the classes of its callers"""
+    c = classify(q)
+    if c is not None:
+        return {c}
+    seen = seen or set()
+    if q in seen:
+        return set()
+    seen.add(q)
+    out = set()
+    for p in callers.get(q, ()):
+        out |= phases_of(p, cg, callers, seen)
+    return out
+
+
 def t_inventory(eng):
     n = P + '/state-inventory/'
     with open(os.path.join(VERIF, 'contracts', 'C14_inventory.json')) as f:
         accepted = json.load(f)
     inv = full_inventory(eng.repo, eng.fn_override)
+    cg = CallGraph(eng.repo, eng.fn_override)
+    callers = {}
+    for q in cg.funcs:
+        for c in cg.callees(q):
+            callers.setdefault(c, set()).add(q)
+    # accepted state per class of function: which attributes (by name) functions of that class may write
+    allowed = {}
+    for q, ws in accepted.items():
+        c = classify(q)
+        for k, t in ws:
+            allowed.setdefault(c, set()).add(written_name(k, t))
     new = []
     for q, ws in sorted(inv.items()):
         if q.endswith('.__init__'):
             continue
         acc = set(tuple(x) for x in accepted.get(q, []))
         for w in ws:
-            if tuple(w) not in acc:
-                new.append((q, w))
+            if tuple(w) in acc:
+                continue
+            # not literally in the accepted inventory (renamed local, extracted helper, moved statement): the write is
+            # still accepted if every class of function this one belongs to already writes that piece of state
+            ph = phases_of(q, cg, callers)
+            wn = written_name(w[0], w[1])
+            if ph and wn[0] == 'attr' and all(wn in allowed.get(c, ()) for c in ph):
+                continue
+            new.append((q, w))
     eng.notes.append('inventory: %d write records in %d functions' % (sum(len(v) for v in inv.values()), len(inv)))
+    # a new plain attribute store whose attribute is read nowhere in the program cannot carry history into a result
+    all_reads = cg.attr_reads(cg.funcs.keys())
+    harmless = []
+    for q, w in list(new):
+        kind, tgt = w[0], w[1]
+        if kind == 'store' and '[' not in tgt and '.' in tgt and tgt.rsplit('.', 1)[1] not in all_reads:
+            harmless.append((q, w))
+            new.remove((q, w))
+    if harmless:
+        eng.notes.append('new write-only attributes (read nowhere, not state in the sense of C14): %s' % harmless[:8])
     eng.oblige(P + '/unclassified-state', len(new) == 0,
                detail='writes that are in nobody\'s inventory: %s' % new[:8])
-    unclassified = sorted(q for q in accepted if classify(q) is None)
+    unclassified = sorted(q for q in inv if not q.endswith('.__init__') and inv[q] and not phases_of(q, cg, callers))
     eng.oblige(n + 'every-writing-function-is-classified', not unclassified, detail=str(unclassified))
     eng.oblige(n + 'inventory-not-empty', sum(len(v) for v in inv.values()) > 80)
     # in-place writes on parameters / aliases are justified one by one
@@ -107,8 +173,12 @@ def t_inventory(eng):
     for q, ws in inv.items():
         for k, t in ws:
             if k.startswith('inplace-') or k.endswith('-param') or k.endswith('-alias'):
-                if (q, k, t) not in INPLACE_JUSTIFIED and classify(q) is not None and \
-                        not classify(q).startswith('model construction'):
+                ph = phases_of(q, cg, callers)
+                if (q, k, t) not in INPLACE_JUSTIFIED and ph and \
+                        not all(c.startswith('model construction') for c in ph):
+                    if k == 'inplace-alias' and any(qq == q and kk == k and written_name(kk, tt) == written_name(k, t)
+                                                    for (qq, kk, tt) in INPLACE_JUSTIFIED):
+                        continue           # the same aliased state under another local name
                     unjust.append((q, k, t))
     eng.oblige(n + 'in-place-writes-through-parameters-or-aliases-are-justified', not unjust, detail=str(unjust))
     eng.cover('inventory')
